@@ -120,10 +120,16 @@ class Ctx:
 
 
 def load_known(prop):
-    if not os.path.exists(KNOWN):
-        return []
-    d = json.load(open(KNOWN))
-    return [f for f in d.get("findings", []) if f["property"] == prop]
+    out = []
+    if os.path.exists(KNOWN):
+        d = json.load(open(KNOWN))
+        out += [f for f in d.get("findings", []) if f["property"] == prop]
+    import glob as _glob
+    for p in sorted(_glob.glob(os.path.join(VERIF, "known_findings.d", "*.json"))):
+        d = json.load(open(p))
+        items = d.get("findings", []) if isinstance(d, dict) else d
+        out += [f for f in items if f["property"] == prop]
+    return out
 
 
 def validate_evidence(path):
@@ -149,7 +155,17 @@ def run_property(mod, tier, seed):
     level = getattr(mod, "LEVEL", "proof")
 
     # 1. grep gate
-    bad = coq.grep_gate()
+    import glob as _glob
+    dirs = ["Base", "Gen"] + list(getattr(mod, "COQ_DIRS", [prop]))
+    files = []
+    for d in dirs:
+        files += sorted(_glob.glob(os.path.join(coq.COQ, d, "**", "*.v"), recursive=True))
+    for d in dirs:
+        f = os.path.join(coq.COQ, "Properties", d + ".v")
+        if os.path.exists(f):
+            files.append(f)
+    ctx.extra["coq_files"] = [os.path.relpath(f, coq.COQ) for f in files]
+    bad = coq.grep_gate(files) if files else []
     ctx.obligation("grep-gate", not bad, "\n".join("%s:%d: %s" % b for b in bad))
 
     # 2. translators
